@@ -105,3 +105,10 @@ Example C07_nonvacuous :
   check l life 1699999999000000000%Z text = Reject400 /\
   check l life 1700000300000000000%Z (firstn 10 text ++ [66] ++ skipn 11 text) = Reject401.
 Proof. vm_compute. auto. Qed.
+
+(* ---- the model's state space is the code's declared state ----
+   (theories/StateInst.v: package-level variables and struct fields listed by tools/facts on every
+   run; the models keep no state between operations other than these components) *)
+From Whawty Require StateInst.
+Theorem C07_session_state_inventory : StateInst.session_state_inventory.
+Proof. exact StateInst.session_state_inventory_holds. Qed.
